@@ -4,6 +4,7 @@ from __future__ import annotations
 import datetime as dt
 
 import specs
+import etread
 import vlib
 from kgen import coq_reqpolicy, coq_request, handle, us
 from vlib import z, zlist
@@ -73,6 +74,11 @@ class Cases:
         if xml is not None:
             d["xml_len"] = len(xml)
         ok, msg = acc == want, f"implementation {'accepts' if acc else 'rejects (' + r[2] + ')'} but the documented rules say {'accept' if want else 'reject'}"
+        if ok and xml is not None:
+            # the verdict is about the document: the values judged must be the ones it states (read independently with ElementTree)
+            mis = etread.misread(xml, req)
+            if mis:
+                ok, msg = False, "the request is judged on values the document does not state: " + "; ".join(mis[:3])
         if ok and built is not None and acc != (built == "accept"):
             ok, msg = False, (f"an honestly generated request is rejected ({r[2]})" if built == "accept" else "a tampered request is accepted")
         self.meta.append({"kind": kind, "desc": d, "spec_ok": ok, "key": None, "xml": xml, "spec_msg": msg})
